@@ -215,8 +215,8 @@ def paramSem (ps : List Param) : ParamSem :=
   { e := d.get .maxErrors
     o := d.get .minOverlap
     indels := if d.has .noindels then some (.bool false) else d.get .indels
-    anywhere := match d.get .anywhere with | some v => v.truthy | none => false
-    rightmost := match d.get .rightmost with | some v => v.truthy | none => false
+    anywhere := d.flag .anywhere
+    rightmost := d.flag .rightmost
     required := if d.has .optional then some (.bool false) else d.get .required }
 
 /-- outcome classes: rejected with a message and exit status 2 / uncaught exception / outside the model -/
@@ -225,6 +225,11 @@ inductive Kind | cmdline | crash | unsupported
 
 def kindOf (e : Err) : Kind :=
   if e.isCmdline then .cmdline else if e = .unsupported then .unsupported else .crash
+
+/-- a result of the model, errors reduced to their kind -/
+def toKind : Except Err α → Except Kind α
+  | .ok a => .ok a
+  | .error e => .error (kindOf e)
 
 /-- search parameters in force around an adapter: global options overridden by file-level parameters -/
 structure Base where
